@@ -1,4 +1,8 @@
+mod absdoc;
+mod docrun;
 mod fsx;
+mod project;
+mod render;
 mod router;
 
 fn main() {
@@ -12,6 +16,8 @@ fn main() {
         "router-replay" => router::cmd_replay(rest),
         "router-seq" => router::cmd_seq(rest),
         "fs-export" => fsx::cmd_export(rest),
+        "doc-replay" => docrun::cmd_replay(rest),
+        "doc-project" => docrun::cmd_project(rest),
         other => {
             eprintln!("unknown subcommand {}", other);
             2
